@@ -25,7 +25,8 @@ CssNames == [black |-> <<0,0,0>>, white |-> <<255,255,255>>, red |-> <<255,0,0>>
              yellow |-> <<255,255,0>>, navy |-> <<0,0,128>>, darkblue |-> <<0,0,139>>, darkred |-> <<139,0,0>>, tan |-> <<210,180,140>>,
              orange |-> <<255,165,0>>, purple |-> <<128,0,128>>, gray |-> <<128,128,128>>, silver |-> <<192,192,192>>,
              lime |-> <<0,255,0>>, teal |-> <<0,128,128>>, fuchsia |-> <<255,0,255>>, aqua |-> <<0,255,255>>, maroon |-> <<128,0,0>>,
-             olive |-> <<128,128,0>>, brown |-> <<165,42,42>>, gold |-> <<255,215,0>>, indigo |-> <<75,0,130>>, pink |-> <<255,192,203>>]
+             olive |-> <<128,128,0>>, brown |-> <<165,42,42>>, gold |-> <<255,215,0>>, indigo |-> <<75,0,130>>, pink |-> <<255,192,203>>,
+             aliceblue |-> <<240,248,255>>, antiquewhite |-> <<250,235,215>>]
 \* a colour argument as abstracted by the harness:
 \*   [kind |-> "none"]                                     None (transparent)
 \*   [kind |-> "name", name |-> "darkblue"]
